@@ -47,6 +47,14 @@ var zzTables = [][]zzOp{
 	{zzH("/p/d", "GET"), zzH("/p/{id}/d", "GET"), zzH("/p/{id}/c", "POST"), zzH("/p/{id}", "DELETE")},
 	// 12: an arbitrary (uninterpreted) user-defined interceptor "u" next to regexp and named parameters
 	{zzH("/i/{n:u}", "GET"), zzH("/i/{r:[a-c]+}", "GET"), zzH("/i/{s}", "GET"), zzH("/i/{n:u}/x", "POST"), zzH("/w/{m:u}.t", "GET"), zzH("/v/{-k:u}/e", "GET")},
+	// 13: an indexed literal child that consumes text and then fails below itself, next to an endpoint parameter
+	{zzH("/a/x", "GET"), zzH("/a/z", "GET"), zzH("/b", "GET"), zzH("/c", "GET"), zzH("/d", "GET"), zzH("/e", "GET"), zzH("/{p}", "GET")},
+	// 14: routes under a prefix that ends right after a parameter are cleaned; the parameter route itself stays
+	{zzH("/p/{id}", "GET"), zzH("/p/{id}/a", "GET"), zzH("/p/{id}/t", "POST"), zzPCl("/p/{id}/")},
+	// 15: ignored-name regexps with a top-level alternation, with a literal tail and with a following parameter
+	{zzH("/f/{-k:a|b}/l", "GET"), zzH("/g/{-k:a|bc}x/{n}", "GET"), zzH("/h/{k:a|b}/l", "GET")},
+	// 16: exactly five literal siblings, one removed (the index threshold is crossed downwards)
+	{zzH("/a", "GET"), zzH("/b", "GET"), zzH("/c", "GET"), zzH("/d", "GET"), zzH("/e", "GET"), zzRm("/b")},
 }
 
 var zzMethods = []string{"GET", "HEAD", "POST", "OPTIONS", "DELETE", "PUT", "TRACE", "", "BOGUS"}
